@@ -31,6 +31,7 @@ enum Op {
     Close,            // c
     Add(c_int),       // a<sig>
     Deliver(c_int),   // D<sig>
+    WaitDeliver(c_int), // W<sig>  wait until the library is the signal's disposition, then deliver
     CloneDrop,        // h   clone the handle and drop the clone
     IsClosed,         // q
 }
@@ -51,6 +52,7 @@ fn parse(s: &str) -> Vec<Op> {
                 "c" => Op::Close,
                 "a" => Op::Add(n as c_int),
                 "D" => Op::Deliver(n as c_int),
+                "W" => Op::WaitDeliver(n as c_int),
                 "h" => Op::CloneDrop,
                 "q" => Op::IsClosed,
                 _ => panic!("bad op {}", tok),
@@ -226,6 +228,10 @@ fn handle_op(h: &Handle, op: &Op) {
             }
         }
         Op::Deliver(sig) => sched::deliver_here(*sig, sched::fresh_delivery_id()),
+        Op::WaitDeliver(sig) => {
+            verif::syscall_blocking("wait_lib", *sig);
+            sched::deliver_here(*sig, sched::fresh_delivery_id());
+        }
         Op::CloneDrop => {
             let c = h.clone();
             drop(c);
@@ -596,7 +602,7 @@ pub fn main(args: &Args) -> i32 {
             .iter()
             .flatten()
             .filter_map(|o| match o {
-                Op::Add(s) | Op::Deliver(s) => Some(*s),
+                Op::Add(s) | Op::Deliver(s) | Op::WaitDeliver(s) => Some(*s),
                 _ => None,
             })
             .collect();
